@@ -218,6 +218,7 @@ class Case:
     scope = ""  # description of the bound when ``domain`` is given
     proved = True  # False => bounded only (never counted as proved)
     axioms = None
+    ground = None  # optional: callable() -> iterable of primitive dicts: a complete finite domain
     known = {}  # label -> {"id":..., "carve": lambda inp: cond}  known-finding carve-outs
     timeout_ms = 10000
 
